@@ -20,6 +20,8 @@ func Main(args []string) int {
 		return cmdCheck(args[1:])
 	case "replay":
 		return cmdReplay(args[1:])
+	case "ssa":
+		return cmdSSA(args[1:])
 	}
 	fmt.Println("unknown command", args[0])
 	return 2
@@ -39,7 +41,9 @@ func cmdUnit(args []string) int {
 	frames := fs.Bool("frames", true, "check frames")
 	locks := fs.Bool("locks", false, "check locks")
 	pk := fs.String("pkgs", "", "comma separated package patterns")
+	qid := fs.Bool("qid", false, "name quantifiers for z3 qi.profile")
 	fs.Parse(args)
+	qidOn = *qid
 	pats := repoPatterns()
 	if *pk != "" {
 		pats = strings.Split(*pk, ",")
@@ -82,6 +86,15 @@ func cmdUnit(args []string) int {
 			fmt.Println("   note:", n)
 		}
 	}
+	for _, lm := range db.Lemmas {
+		for _, a := range fs.Args() {
+			if strings.Contains("lemma:"+lm.Name, a) {
+				u := GenerateLemma(w, lm)
+				units = append(units, u)
+				fmt.Printf("lemma %s: %d obligations err=%q\n", lm.Name, len(u.Obligs), u.Err)
+			}
+		}
+	}
 	scratch := *keep
 	if scratch == "" {
 		scratch, _ = os.MkdirTemp("", "govc")
@@ -114,3 +127,19 @@ func cmdUnit(args []string) int {
 	return 0
 }
 
+
+func cmdSSA(args []string) int {
+	w, err := LoadWorld("/repo", repoPatterns())
+	if err != nil {
+		fmt.Println(err)
+		return 2
+	}
+	for fn := range ssautilAll(w) {
+		for _, a := range args {
+			if strings.Contains(fn.String(), a) {
+				fn.WriteTo(os.Stdout)
+			}
+		}
+	}
+	return 0
+}
